@@ -95,6 +95,9 @@ def configs(tier):
     for axis in (0, 1):
         for ua, ub in [("m", "m"), ("m", "cm")]:
             out.append(dict(fn="concatenate", ua=ua, ub=ub, dt="float64", shape=[2, 2], form="axis", axis=axis, other="Array"))
+    for ua in ("m", "dimensionless"):
+        for kform in ("0d-ndarray", "np.float64", "np.int64"):
+            out.append(dict(fn="power", ua=ua, dt="float64", shape=[2], k=2, kform=kform, form="plain"))
     for fn in ("add", "multiply", "divide", "subtract", "sqrt", "negative", "square"):
         for ua, ub in [("m", "m"), ("m", "cm"), ("m", "s")]:
             out.append(dict(fn=fn, ua=ua, ub=ub, dt="float64", shape=[2], form="out", other="Array"))
@@ -135,7 +138,7 @@ def body(m, cfg):
     if form == "out" and ar == 1:
         ucase = "unary"
     tag = f"np.{fn}:{ucase}:{C.DT_SHORT[dt]}:{form}" + (f":axis={cfg['axis']}" if form == "axis" else "") + \
-          (f":k={cfg['k']}" if "k" in cfg else "")
+          (f":k={cfg['k']}" if "k" in cfg else "") + (f":{cfg['kform']}" if "kform" in cfg else "")
     kw = {}
     if form == "axis":
         kw["axis"] = cfg["axis"]
@@ -186,7 +189,8 @@ def body(m, cfg):
             args, oargs = [a, b], [a_cgs, b_cgs]
     if cls == "pow":
         k = cfg["k"]
-        args.append(k)
+        kobj = {"0d-ndarray": np.array(float(k)), "np.float64": np.float64(k), "np.int64": np.int64(k)}.get(cfg.get("kform"), k)
+        args.append(kobj)
         oargs.append(k)
         if k < 0:
             for t in av:
